@@ -187,7 +187,7 @@ def handle (j : Json) : Json :=
     kinds.map (fun k => s!"kind.{k}") ++ pairs kinds ++
     (if multi && ops.any (fun o => validates o.kind && !o.patterns.isEmpty) then ["pattern.cacheUse"] else []) ++
     (if multi && ops.any (fun o => validates o.kind && o.arrays) then ["unique.lazyInit"] else []) ++
-    (if multi && ops.any (fun o => o.kind = .gen) then ["typeinfo.cacheFill"] else []) ++
+    (if multi && ops.any (fun o => o.kind = .gen) then ["typeinfo.fillUse"] else []) ++
     (if multi && ops.any (fun o => validates o.kind && o.defaultsOn) then ["defaults.on"] else []) ++
     (if getBool j "cold" then ["cold.firstUse", "solo.freshProcess"] else []) ++
     -- per-call options that change verdicts, next to process-wide state
